@@ -190,6 +190,56 @@ newline"`)
 		fixedBlock = append(fixedBlock,
 			Case{Mode: "session", Kind: "session", Margins: []int{70}, Items: vecItems},
 			Case{Mode: "session", Kind: "session", Margins: []int{28}, Items: vecItems[len(vecItems)/2:]})
+		// variables and constants holding the empty values
+		{
+			var items []Item
+			for k, v := range []string{"nil", "t", "0", `""`, "'()", "#()", "(make-hash-table)", "(list nil)", "'(nil . nil)", ":k", "(make-array '(1 1) :initial-element nil)"} {
+				name := fmt.Sprintf("*fx-empty%d*", k)
+				head := []string{"defvar", "defparameter"}[k%2]
+				items = append(items, Item{Kind: "var", Name: name, Forms: []string{fmt.Sprintf("(%s %s %s)", head, name, v)},
+					Probes: []string{name, fmt.Sprintf("(boundp '%s)", name)}})
+			}
+			items = append(items,
+				Item{Kind: "var", Name: "*fx-declared*", Forms: []string{"(defvar *fx-declared*)"}, Probes: []string{"(boundp '*fx-declared*)"}},
+				Item{Kind: "var", Name: "*fx-set-nil*", Forms: []string{"(defvar *fx-set-nil* 5 \"was five\")", "(setq *fx-set-nil* nil)"},
+					Probes: []string{"*fx-set-nil*", "(boundp '*fx-set-nil*)", "(documentation '*fx-set-nil* 'variable)"}},
+				Item{Kind: "const", Name: "+fx-nil+", Forms: []string{"(defconstant +fx-nil+ nil)"}, Probes: []string{"+fx-nil+"}},
+				Item{Kind: "const", Name: "+fx-empty+", Forms: []string{"(defconstant +fx-empty+ \"\" \"empty\")"}, Probes: []string{"+fx-empty+", "(documentation '+fx-empty+ 'variable)"}})
+			fixedBlock = append(fixedBlock, Case{Mode: "session", Kind: "session", Margins: []int{70}, Items: items})
+		}
+		// every kind of failed operation and of removed definition once
+		{
+			s := newSctx(rnd(), "")
+			s.session = true
+			var items []Item
+			for k := 0; k < nFailed; k++ {
+				items = append(items, s.failedItem(k))
+			}
+			for k := 0; k < nRemoved; k++ {
+				if k != 2 { // (a removed flavor is the avoid-set construct flavor-removed)
+					items = append(items, s.removedItem(k))
+				}
+			}
+			fixedBlock = append(fixedBlock, Case{Mode: "session", Kind: "session", Margins: []int{70}, Items: items})
+		}
+		// a component flavor with list and symbol defaults, re-declared by the child
+		lp := `(defflavor fx-lp ((a '(1 2)) (b 'sym) (c 3)) () :gettable-instance-variables :settable-instance-variables :inittable-instance-variables)`
+		lc := `(defflavor fx-lc ((d 1) (a '(1 2)) (b 'other)) (fx-lp) :gettable-instance-variables)`
+		lprobes := []string{"(let ((i (make-instance 'fx-lc))) (list (send i :a) (send i :b) (send i :c) (send i :d)))",
+			"(let ((i (make-instance 'fx-lc))) (send i :set-a '(9)) (send i :a))", "(send (make-instance 'fx-lc) :which-operations)"}
+		fixedBlock = append(fixedBlock,
+			Case{Mode: "def", Kind: "flavor", Margins: []int{60}, Items: []Item{{Kind: "flavor", Name: "fx-lc", Info: "inherits:2",
+				Pre: []string{lp}, Forms: []string{lc}, Obj: "(find-flavor 'fx-lc)", Probes: lprobes}}},
+			Case{Mode: "session", Kind: "session", Margins: []int{60}, Items: []Item{
+				{Kind: "flavor", Name: "fx-lp", Forms: []string{lp}, Probes: []string{"(send (make-instance 'fx-lp) :a)"}},
+				{Kind: "flavor", Name: "fx-lc", Info: "inherits:2", Pre: []string{lp}, Forms: []string{lc}, Probes: lprobes}}})
+		for _, feat := range codeFeats {
+			for _, kind := range []string{"defun", "lambda", "defmacro"} {
+				for j := 0; j < 2; j++ {
+					fixedBlock = append(fixedBlock, buildCodeCase(rnd(), kind, feat, fmt.Sprintf("y%d", seed)))
+				}
+			}
+		}
 		for _, feat := range sessionFeats {
 			// the first one holds nothing but the construct: the smallest witness
 			for j := 0; j < 4; j++ {
@@ -255,6 +305,8 @@ func worldTrouble(x *fw.Ctx, c Case, which string, wr WorldResult) bool {
 	return false
 }
 
+var formHead = regexp.MustCompile(`^\((?:ignore-errors \()?([a-z*-]+)[ )]`)
+
 var usedBy = regexp.MustCompile(`Used By: .*? (Variables|Classes):`)
 
 func probeOut(src string, o Out) string {
@@ -290,6 +342,9 @@ func execDef(x *fw.Ctx, c Case) {
 	}
 	if strings.HasPrefix(it.Info, "inherits:") {
 		x.Cover("flavor-" + it.Info)
+		if strings.Contains(strings.Join(it.Pre, " "), " '(") {
+			x.Cover("flavor-component-with-list-default")
+		}
 	}
 	if c.Feat != "" {
 		x.Cover("dirty:" + c.Feat)
@@ -569,11 +624,23 @@ func execSession(x *fw.Ctx, c Case) {
 	for i, it := range c.Items {
 		if !rejected[i] {
 			x.Cover("item:" + it.Kind)
+			if strings.HasPrefix(it.Info, "failed:") || strings.HasPrefix(it.Info, "removed:") {
+				x.Cover(it.Info)
+			}
+			for _, f := range it.Forms {
+				// the defining operators of the session, as the quantifier lists them
+				if m := formHead.FindStringSubmatch(f); m != nil {
+					x.Cover("form:" + m[1])
+				}
+			}
 			if 0 < it.Redef {
 				x.CoverN("redefined:"+it.Kind, it.Redef)
 			}
 			if strings.HasPrefix(it.Info, "inherits:") {
 				x.Cover("flavor-" + it.Info)
+				if strings.Contains(strings.Join(it.Pre, " "), " '(") {
+					x.Cover("flavor-component-with-list-default")
+				}
 			}
 		}
 	}
